@@ -109,7 +109,7 @@ fn is_upper_snake_case(s: &str) -> bool {
 // ------------------------------------------------------------------ trees (harness side)
 
 #[derive(Clone, Debug, PartialEq, Eq, PartialOrd, Ord)]
-enum Seg {
+pub(crate) enum Seg {
     Ident(String, Option<String>),
     Slf(Option<String>),
     Super(Option<String>),
@@ -119,7 +119,7 @@ enum Seg {
 }
 
 #[derive(Clone, Debug, PartialEq, Eq, PartialOrd, Ord)]
-struct Tree(Vec<Seg>);
+pub(crate) struct Tree(pub(crate) Vec<Seg>);
 
 fn enc_alias(a: &Option<String>) -> String {
     match a {
@@ -129,7 +129,7 @@ fn enc_alias(a: &Option<String>) -> String {
 }
 
 impl Seg {
-    fn enc(&self) -> String {
+    pub(crate) fn enc(&self) -> String {
         match self {
             Seg::Ident(n, a) => format!("(i:{}:{})", enc_str(n), enc_alias(a)),
             Seg::Slf(a) => format!("(s:{})", enc_alias(a)),
@@ -139,7 +139,7 @@ impl Seg {
             Seg::List(l) => format!("(l{})", l.iter().map(|t| t.enc()).collect::<String>()),
         }
     }
-    fn text(&self) -> String {
+    pub(crate) fn text(&self) -> String {
         let al = |a: &Option<String>| a.as_ref().map(|s| format!(" as {}", s)).unwrap_or_default();
         match self {
             Seg::Ident(n, a) => format!("{}{}", n, al(a)),
@@ -183,10 +183,10 @@ impl Seg {
 }
 
 impl Tree {
-    fn enc(&self) -> String {
+    pub(crate) fn enc(&self) -> String {
         format!("[{}]", self.0.iter().map(|s| s.enc()).collect::<String>())
     }
-    fn text(&self) -> String {
+    pub(crate) fn text(&self) -> String {
         self.0.iter().map(|s| s.text()).collect::<Vec<_>>().join("::")
     }
     fn rank(&self, v: bool) -> Tree {
@@ -214,7 +214,7 @@ impl Tree {
     }
 }
 
-fn enc_trees(ts: &[Tree]) -> String {
+pub(crate) fn enc_trees(ts: &[Tree]) -> String {
     if ts.is_empty() { "_".into() } else { ts.iter().map(|t| t.enc()).collect() }
 }
 
@@ -285,13 +285,13 @@ impl<'a> P<'a> {
     }
 }
 
-fn dec_tree(s: &str) -> Option<Tree> {
+pub(crate) fn dec_tree(s: &str) -> Option<Tree> {
     let mut p = P { s: s.as_bytes(), i: 0 };
     let t = p.tree()?;
     (p.i == s.len()).then_some(t)
 }
 
-fn dec_trees(s: &str) -> Option<Vec<Tree>> {
+pub(crate) fn dec_trees(s: &str) -> Option<Vec<Tree>> {
     if s == "_" {
         return Some(vec![]);
     }
